@@ -6,7 +6,7 @@
 From V Require Import Common.Base C16.Checked C16.Spec C16.Wtf8 C16.Vlq16 C16.CssNum C16.Pieces C16.Packet C16.CssIdent C16.JsxEntities C16.CssLex C16.Globstar C16.JsLex C16.JsIdent C16.JsPragma
   C16.Proofs C16.Vlq16Proofs C16.GlobstarProofs C16.PanicSites C16.DecodeLoops.
 From V Require Import gen.PanicSitesGen gen.DecodeLoopsGen.
-From V Require Import C16.ClosingTag C16.ClosingTagProofs.
+From V Require Import C16.ClosingTag C16.ClosingTagProofs C16.ClosingTagNoTag.
 From Coq Require Import String.
 
 (* helpers.DecodeWTF8Rune: every list of integers, whatever width is returned on truncation *)
@@ -265,3 +265,11 @@ Theorem EscapeClosingTag_is_one_pass_spec : forall tag text,
   EscapeClosingTag tag text = Ok (match tag with [] => text | _ => esc_spec tag text end).
 Proof. exact EscapeClosingTag_is_spec. Qed.
 Print Assumptions EscapeClosingTag_is_one_pass_spec.
+
+(* ... and what it is for: for every tag that starts with '/' and contains no '<' (the callers'
+   "/script" and "/style", Example script_tag_ok), NO '<' followed by a case-insensitive occurrence
+   of the tag is left anywhere in the output, whatever the text *)
+Theorem EscapeClosingTag_leaves_no_closing_tag : forall tag' text, no_lt tag' = true ->
+  exists out, EscapeClosingTag (47 :: tag') text = Ok out /\ has_closing (47 :: tag') out = false.
+Proof. exact EscapeClosingTag_no_closing. Qed.
+Print Assumptions EscapeClosingTag_leaves_no_closing_tag.
